@@ -44,6 +44,9 @@ def raw_ops(path):
     return out
 
 
+from common import payload_param as _pp19, int_param as _ip19
+
+
 def next_of(E, path, idx):
     """acceptable successor values of idx on this path: idx+1 (with fact idx+1 != LEN) or 0 (== LEN)"""
     if idx[0] == 'const' and isinstance(idx[1], int):
@@ -128,7 +131,7 @@ def run(C, R):
             nraw += len(ops)
             guard = eq_fact(E, path.facts, S('size'), LEN) == 0
             ok_access = len(ops) == 1 and ops[0][0] == 'write' and ops[0][1] == S('send_idx') \
-                and ops[0][2]['args'][1] == ('param', 'value')
+                and ops[0][2]['args'][1] == _pp19(fn)
             nx = next_of(E, path, S('send_idx'))
             ok_acct = nx is not None and final(E, path, 'send_idx') == nx and \
                 final(E, path, 'size') == ('bin', 'Add', S('size'), ('const', 1)) and \
@@ -232,7 +235,7 @@ def run(C, R):
         for fn in nxt:
           for path in E.run(fn['path']):
               R.add_paths(fn['path'], 1)
-              i = ('param', 'last_idx')
+              i = _ip19(fn) or ('param', 'last_idx')
               inc = ('bin', 'Add', i, ('const', 1))
               eq = const_of(E, path.facts, ('bin', 'Eq', inc, LEN))
               if (eq == 1 and path.ret == ('const', 0)) or (eq == 0 and path.ret == inc):
@@ -313,7 +316,7 @@ def heap_variants(R, E, F, rule, cfg):
             if path.exit != 'return':
                 continue
             pb = [e for e in path.events if e['k'] == 'call' and e['name'] in ('push_back', 'push_front', 'insert')]
-            if len(pb) == 1 and pb[0]['name'] == 'push_back' and pb[0]['args'][1] == ('param', 'value'):
+            if len(pb) == 1 and pb[0]['name'] == 'push_back' and pb[0]['args'][1] == _pp19(fn):
                 R.ok(rule, '%s|push_back(value)' % fn['path'])
             else:
                 R.fail(rule, [fn['path'], 'push'], 'push must be exactly VecDeque::push_back(value)',
